@@ -690,8 +690,76 @@ def _split_tuple_assignments(tree):
             fn.body = go(fn.body)
             return fn
 
+        def _attr_built_lists(self, fn):
+            """`obj.X = []` followed only by `obj.X.append(e)` (in loops / branches) builds the list in place in the attribute; it is
+            the same as building a local list and storing it once after the last append, provided nothing can look at obj.X in
+            between: obj is a local name (not self), and between the two points obj is not passed to or called on anything.  The
+            local-list form is the one the expansion machinery reads (loop-built containers)."""
+            body = fn.body
+            for i, s in enumerate(body):
+                if not (isinstance(s, ast.Assign) and len(s.targets) == 1 and isinstance(s.targets[0], ast.Attribute) and isinstance(s.targets[0].value, ast.Name)
+                        and s.targets[0].value.id not in ("self", "cls")
+                        and ((isinstance(s.value, ast.List) and not s.value.elts) or (isinstance(s.value, ast.Call) and isinstance(s.value.func, ast.Name)
+                                                                                      and s.value.func.id == "list" and not s.value.args and not s.value.keywords))):
+                    continue
+                obj, attr = s.targets[0].value.id, s.targets[0].attr
+                path = f"{obj}.{attr}"
+                last, ok, appends = None, True, []
+                for j in range(i + 1, len(body)):
+                    for x in ast.walk(body[j]):
+                        if isinstance(x, ast.Attribute) and dotted(x) == path:
+                            last = j
+                if last is None:
+                    continue
+                tmp = f"__built_{attr.lstrip('_')}"
+                if any(isinstance(x, ast.Name) and x.id == tmp for x in ast.walk(fn)):
+                    continue
+                for j in range(i + 1, last + 1):
+                    st = body[j]
+                    parents = {}
+                    for p_ in ast.walk(st):
+                        for c_ in ast.iter_child_nodes(p_):
+                            parents[id(c_)] = p_
+                    for x in ast.walk(st):
+                        if isinstance(x, ast.Attribute) and dotted(x) == path:
+                            par = parents.get(id(x))
+                            gp = parents.get(id(par)) if par is not None else None
+                            ggp = parents.get(id(gp)) if gp is not None else None
+                            if isinstance(par, ast.Attribute) and par.attr == "append" and isinstance(gp, ast.Call) and gp.func is par and isinstance(ggp, ast.Expr):
+                                appends.append(x)
+                            else:
+                                ok = False
+                        elif isinstance(x, ast.Name) and x.id == obj and isinstance(x.ctx, ast.Load):
+                            par = parents.get(id(x))
+                            # obj may only be the base of an attribute store / of the appended-to attribute; no call sees it
+                            if not (isinstance(par, ast.Attribute) and (isinstance(par.ctx, ast.Store) or dotted(par) == path)):
+                                ok = False
+                        elif isinstance(x, ast.Name) and x.id == obj and isinstance(x.ctx, (ast.Store, ast.Del)):
+                            ok = False
+                        elif isinstance(x, (ast.Return, ast.Yield, ast.YieldFrom, ast.Raise)) and j < last:
+                            pass
+                if not ok or not appends:
+                    continue
+                for x in appends:
+                    x_parent_replace = ast.Name(id=tmp, ctx=ast.Load())
+                    # mutate the Attribute node in place into a Name-like access: replace fields
+                    x.__class__ = ast.Name
+                    x.id = tmp
+                    x.ctx = ast.Load()
+                    for fld in ("value", "attr"):
+                        if hasattr(x, fld):
+                            delattr(x, fld)
+                    x._fields = ast.Name._fields
+                init = ast.copy_location(ast.Assign(targets=[ast.Name(id=tmp, ctx=ast.Store())], value=s.value, type_comment=None), s)
+                final = ast.copy_location(ast.Assign(targets=[s.targets[0]], value=ast.Name(id=tmp, ctx=ast.Load()), type_comment=None), body[last])
+                fn.body = body[:i] + [init] + body[i + 1:last + 1] + [final] + body[last + 1:]
+                ast.fix_missing_locations(fn)
+                return self._attr_built_lists(fn)
+            return fn
+
         def visit_FunctionDef(self, n):
             n = self._test_temps(n)
+            n = self._attr_built_lists(n)
             n = self.generic_visit(n)
             if any(isinstance(x, ast.FunctionDef) for st in n.body for x in ast.walk(st)):
                 def blocks(stmts):
